@@ -263,15 +263,7 @@ func (s *grpcServer) UpdateActionResult(ctx context.Context,
 		return nil, errEmptyActionResult
 	}
 
-	err = s.cache.Put(ctx, cache.AC, req.ActionDigest.Hash,
-		int64(len(data)), bytes.NewReader(data))
-	if err != nil && err != io.EOF {
-		s.logErrorPrintf(err, "%s %s %s", logPrefix, req.ActionDigest.Hash, err)
-		code := gRPCErrCode(err, codes.Internal)
-		return nil, status.Error(code, err.Error())
-	}
-
-	// Also cache any inlined blobs, separately in the CAS.
+	// Cache any inlined blobs, separately in the CAS.
 	//
 	// TODO: consider normalizing what we store in the AC (store all results
 	// inlined? or de-inline all results?)
@@ -340,6 +332,16 @@ func (s *grpcServer) UpdateActionResult(ctx context.Context,
 			return nil, status.Error(code, err.Error())
 		}
 		s.accessLogger.Printf("GRPC CAS PUT %s OK", hash)
+	}
+
+	// Store the ActionResult itself last, so that a request which is
+	// rejected because of one of its inlined blobs leaves no AC entry behind.
+	err = s.cache.Put(ctx, cache.AC, req.ActionDigest.Hash,
+		int64(len(data)), bytes.NewReader(data))
+	if err != nil && err != io.EOF {
+		s.logErrorPrintf(err, "%s %s %s", logPrefix, req.ActionDigest.Hash, err)
+		code := gRPCErrCode(err, codes.Internal)
+		return nil, status.Error(code, err.Error())
 	}
 
 	s.accessLogger.Printf("GRPC AC PUT %s OK", req.ActionDigest.Hash)
